@@ -10,7 +10,7 @@ RULE = ("(helpers) input sequences of ints / None / unorderable objects with equ
         "immediate or blocking on a harness batch item, reverse on/off, amax/amin in varargs and single-iterable form with and without key, bad inputs (no "
         "arguments, empty, non-iterable, unexpected keyword, unorderable keys); compared with map/filter/filterfalse/sorted/max/min/a two-list partition by "
         "object identity. non-trivial = length >= 2 with a duplicate key, or a one-shot iterator, or a bad input. (aretry) every (k, max_tries, position of an "
-        "unlisted exception, exception spec) cell, enumerated. distinct = distinct case JSON")
+        "unlisted exception, exception spec) cell, enumerated. distinct = distinct case JSON asift is called twice (the caller changes the first result in between); a further campaign issues several helper calls in one yield, optionally nested.")
 ASSUMPTIONS = ["'the same exception type' is compared by class name with the built-in's behaviour on the same input"]
 
 HELPERS = ["amap", "afilter", "afilter_none", "afilterfalse", "asorted", "asorted_nokey", "amax", "amin", "amax_nokey", "amin_nokey", "amaxv", "aminv", "amaxv_nokey", "asift",
